@@ -108,7 +108,10 @@ def _replace_tokens(sig, trees, mapping):
 
 
 def run_send(case):
-    rig = N.ClientRig(unix=True)
+    try:
+        rig = N.ClientRig(unix=True)
+    except N.RigFailure as e:
+        return [Disc('send.establish-failed', str(e))]
     out = []
     try:
         rig.sent_messages()
